@@ -158,10 +158,15 @@ class ACChecker(object):
         factors = expr.as_ordered_factors()
 
         self.amp = 1
+        found = False
         for factor in factors:
             if factor.is_Function:
                 if factor.func not in (cos, sin, exp):
                     return False
+                if found:
+                    # A product of sinusoids is not a single sinusoid
+                    return False
+                found = True
                 if not self._find_freq_phase(factor):
                     return False
             elif is_dc(factor, self.var):
